@@ -38,8 +38,8 @@ KROOTS = ['^@thread_entry_', '^@K_', '^@world_']
 def kjob(name, src, nt, slices, defines, mode='coop', timeout=900, desc='', unwind=4, mem_gb=12, kn=None):
     # kn > nt: additional thread objects that never run (constructed sleepers: pure queue state)
     return Job(name, src, 'sched', roots=KROOTS, defines=['NT=%d' % nt, 'KN=%d' % (kn or nt)] + defines, clang=KCLANG,
-               ir2c=KSTUB + (['--cs-none'] if mode == 'coop' else ['--cs-atomic-only']), shims=['libc.c', 'sched.c'],
-               cbmc=['-DNT=%d' % nt, '-DSLICES=%d' % slices, '-DVERIF_SHARED_ERRNO'] + (['-DVERIF_SPIN_IS_DEADLOCK'] if mode == 'coop' else []), unwind=unwind, unwindset=['f_sched.0:%d' % (slices + 1)], nochecks=False,   # rt/kcontract.h and rt/sched.c are loop-free besides the slice loop timeout=timeout, mem_gb=mem_gb,
+               ir2c=KSTUB + (['--cs-none'] if mode == 'coop' else ['--cs-atomic-only', '--cs-before-blocking']), shims=['libc.c', 'sched.c'],
+               cbmc=['-DNT=%d' % nt, '-DSLICES=%d' % slices] + (['-DVERIF_SHARED_ERRNO', '-DVERIF_SPIN_IS_DEADLOCK'] if mode == 'coop' else []),   # one vCPU: errno is shared and a spin is a deadlock; several vCPUs: errno per OS thread, await-as-assume unwind=unwind, unwindset=['f_sched.0:%d' % (slices + 1)], nochecks=False, timeout=timeout, mem_gb=mem_gb,   # (rt/kcontract.h and rt/sched.c are loop-free besides the slice loop)
                desc=desc, bounds='%d threads, <= %d execution slices, %s scheduling' % (nt, slices, 'cooperative (switch at blocking calls)' if mode == 'coop' else 'pre-emptive at atomic operations'))
 
 # ---- contract-level sync layer (rt/ksync.h): clients of mutex / cv / semaphore
@@ -57,7 +57,7 @@ KSYNC_IR2C = ['--thread', '^@thread_entry_',
 
 def ksjob(name, src, nt, slices, defines, timeout=900, desc='', unwind=4, mem_gb=12, shims=(), preempt=False, stuck_legal=False, extra_ir2c=()):
     return Job(name, src, 'sched', roots=KROOTS, defines=['NT=%d' % nt, 'KN=%d' % nt] + defines, clang=['-mllvm', '-inline-threshold=100000000'],
-               ir2c=KSYNC_IR2C + list(extra_ir2c) + (['--cs-atomic-only'] if preempt else ['--cs-none']), shims=['libc.c', 'sched.c'] + list(shims),
+               ir2c=KSYNC_IR2C + list(extra_ir2c) + (['--cs-atomic-only', '--cs-before-blocking'] if preempt else ['--cs-none']), shims=['libc.c', 'sched.c'] + list(shims),
                cbmc=['-DNT=%d' % nt, '-DSLICES=%d' % slices] + (['-DVERIF_STUCK_IS_LEGAL'] if stuck_legal else []) + ([] if preempt else ['-DVERIF_SPIN_IS_DEADLOCK']), unwind=unwind,   # rt/ksync.h and rt/sched.c are loop-free besides the slice loop
                unwindset=['f_sched.0:%d' % (slices + 1)], timeout=timeout, mem_gb=mem_gb, desc=desc,
                bounds='%d threads, <= %d execution slices, mutex/cv/semaphore as contracts (rt/ksync.h), %s' % (nt, slices, 'pre-emption at atomic operations' if preempt else 'switch at blocking calls'))
@@ -69,5 +69,6 @@ def jobs(tier):
     J.append(kjob('mutex_2t', 'C01/h_mutex.cpp', 2, 6, ['RETRIES=0', 'YIELD_INSIDE'], desc='2 lockers, symbolic timeouts, owner yields inside'))
     J.append(kjob('mutex_2t_retry', 'C01/h_mutex.cpp', 2, 7, ['RETRIES=1', 'YIELD_INSIDE'], desc='2 lockers, one yield-retry before sleeping'))
     J.append(kjob('mutex_2t_intr', 'C01/h_mutex.cpp', 3, 7, ['RETRIES=0', 'YIELD_INSIDE', 'INTERRUPTER'], desc='2 lockers + an interrupter of locker 1'))
+    J.append(kjob('mutex_2t_mv', 'C01/h_mutex.cpp', 2, 5, ['RETRIES=0'], mode='preempt', desc='2 lockers on different vCPUs: pre-emption before every atomic operation and blocking call of the primitive', timeout=900, mem_gb=10))
     J.append(kjob('mutex_3t', 'C01/h_mutex.cpp', 3, 8, ['RETRIES=0', 'YIELD_INSIDE'], desc='3 lockers, symbolic timeouts', mem_gb=10, timeout=900))
     return J
